@@ -53,7 +53,9 @@ theorem parseDirectiveText_isSome (t : String) :
     constructor
     · intro _; exact ⟨rest, hr⟩
     · intro _
-      split <;> rfl
+      show (match (splitChars ' ' rest).map String.ofList with
+        | [] => some ("", []) | f :: args => some (f, args)).isSome = true
+      cases (splitChars ' ' rest).map String.ofList <;> rfl
 
 theorem mkDirective_eq_some (n : NodeRec) (c : CommentRec) (d : RawDirective) :
     mkDirective n c = some d ↔
@@ -310,6 +312,9 @@ theorem drain_inv {S : List NodeRec} (q : Option NodeRec) (rs : List GroupRec) (
       exact ⟨h2.1, h2.2.trans h1.2⟩
     · exact ⟨⟨h.1, h.2.1, h.2.2⟩, rfl⟩
 
+theorem drainOne_out (q : Option NodeRec) (r : GroupRec) (st : CMState) :
+    ∃ a, (drainOne q r st).out = st.out ++ [(r, a)] := ⟨_, rfl⟩
+
 /-- `out` only grows -/
 theorem drain_out (q : Option NodeRec) (rs : List GroupRec) (st : CMState) :
     ∃ l, (drain q rs st).out = st.out ++ l := by
@@ -319,7 +324,8 @@ theorem drain_out (q : Option NodeRec) (rs : List GroupRec) (st : CMState) :
     rw [drain_cons]
     split
     · obtain ⟨l, hl⟩ := ih (drainOne q r st)
-      exact ⟨(r, _) :: l, by rw [hl]; simp [drainOne]⟩
+      obtain ⟨a, ha⟩ := drainOne_out q r st
+      exact ⟨(r, a) :: l, by rw [hl, ha]; simp⟩
     · exact ⟨[], by simp⟩
 
 theorem stepNode_out (st : CMState) (q : NodeRec) : ∃ l, (stepNode st q).out = st.out ++ l := by
@@ -399,7 +405,8 @@ theorem drain_reaches {S : List NodeRec} (q : NodeRec) (r : GroupRec) (gs1 gs2 :
     have h1 := drainOne_inv (some q) g hinv
     obtain ⟨st', hi, hp, ⟨l, hl⟩, hd⟩ := ih (drainOne (some q) g st)
       (fun x hx => hgs1 x (List.mem_cons_of_mem _ hx)) h1.1
-    refine ⟨st', hi, hp.trans h1.2, ⟨(g, _) :: l, by rw [hl]; simp [drainOne]⟩, ?_⟩
+    obtain ⟨a, ha⟩ := drainOne_out (some q) g st
+    refine ⟨st', hi, hp.trans h1.2, ⟨(g, a) :: l, by rw [hl, ha]; simp⟩, ?_⟩
     rw [List.cons_append, drain_cons, if_pos hg, hd]
 
 /-- **NewCommentMap, comment directly above a node**: a comment group `r` that
@@ -591,5 +598,27 @@ example :
     pipeline [file, s1, s2] [⟨[c0, c]⟩] = [⟨"ignore", ["SA4000", "r"], ⟨"tmpl.go", 40, 0⟩, ⟨"tmpl.go", 41, 0⟩⟩] ∧
     ((kept [d] (pipeline [file, s1, s2] [⟨[c0, c]⟩]) (fun _ => true))[0]'(by simp [kept_length])).sev = .ignored := by
   decide
+
+/-! ### Non-vacuity: the hypotheses of `commentMap_above` / `above_directive_suppresses` are met
+by the facts of a real file (`gen.go`, a statement, a two-line comment group whose *second* line
+is the directive, a statement remapped by `//line tmpl.go:40`). -/
+namespace Ex
+def file : NodeRec := ⟨0, 0, 100, ⟨⟨"gen.go", 1, 1⟩, ⟨"gen.go", 1, 1⟩⟩, 6, true⟩
+def s1 : NodeRec := ⟨1, 20, 26, ⟨⟨"gen.go", 3, 2⟩, ⟨"gen.go", 3, 2⟩⟩, 3, true⟩
+def s2 : NodeRec := ⟨2, 60, 80, ⟨⟨"gen.go", 6, 2⟩, ⟨"tmpl.go", 41, 0⟩⟩, 42, true⟩
+def c0 : CommentRec := ⟨28, 40, ⟨⟨"gen.go", 4, 2⟩, ⟨"tmpl.go", 39, 0⟩⟩, 39, "// why"⟩
+def c : CommentRec := ⟨42, 58, ⟨⟨"gen.go", 5, 2⟩, ⟨"tmpl.go", 40, 0⟩⟩, 40, "//lint:ignore SA4000 r"⟩
+def d : Diag := ⟨⟨"tmpl.go", 41, 0⟩, "m", "SA4000", .error⟩
+def tok : SrcPos := ⟨⟨"gen.go", 6, 5⟩, ⟨"tmpl.go", 41, 0⟩⟩
+
+example : (⟨[c0, c]⟩, some s2) ∈ commentMap ([file, s1] ++ s2 :: []) ([] ++ ⟨[c0, c]⟩ :: []) :=
+  commentMap_above [file, s1] [] s2 [] [] ⟨[c0, c]⟩ (by decide) (by decide) (by decide) (by decide) (by decide)
+
+example : ((kept [d] (pipeline ([file, s1] ++ s2 :: []) ([] ++ ⟨[c0, c]⟩ :: [])) (fun _ => true))[0]'(by
+    rw [kept_length]; decide)).sev = .ignored :=
+  above_directive_suppresses [file, s1] [] s2 [] [] ⟨[c0, c]⟩ (by decide) (by decide) (by decide) (by decide)
+    (by decide) c (by decide) "SA4000" "r" [] (by decide) [d] (fun _ => true) 0 (by decide) tok
+    (by decide) (by decide) (by decide) (by decide)
+end Ex
 
 end Verif.C10
